@@ -299,6 +299,8 @@ def check(ctx: Ctx) -> list[RuleResult]:
     elif inexact or floors:
         a = (inexact or floors)[0]
         r3.fail(f"{w.short}:debit-not-exact", w.loc(a), f"`{norm(a)[:70]}` does not take exactly the frame's size off the bucket (clamped/re-based level): the debt of a writer that was let through after its wait is forgotten, so a sustained stream is written at more than the configured duty cycle")
+    elif not debit:
+        r3.ok({"debit_exact": "no debit statement (reported above)"})
     else:
         r3.ok({"debit_exact": norm(debit[0].ast)})
     r3.instances += 1
